@@ -10,6 +10,7 @@ import TcVerif.Driver.Backend
 import TcVerif.Driver.Wire
 import TcVerif.Driver.CloudConc
 import TcVerif.Driver.CleanConc
+import TcVerif.Driver.SqlConc
 
 open Tc.Driver
 
@@ -250,6 +251,26 @@ partial def loopJudgeCleanConc (h : IO.FS.Stream) (out : IO.FS.Stream) (j : KJ) 
   for o in outs do out.putStrLn o
   loopJudgeCleanConc h out j'
 
+partial def loopSqlConc (h : IO.FS.Stream) (out : IO.FS.Stream) : IO Unit := do
+  let line ← h.getLine
+  if line.isEmpty then return ()
+  if line.startsWith "#" then
+    out.putStrLn line.trimAscii.toString
+  else
+    out.putStrLn ("> " ++ line.trimAscii.toString)
+    for o in sqlConcLine line do
+      out.putStrLn o
+  loopSqlConc h out
+
+partial def loopJudgeSqlConc (h : IO.FS.Stream) (out : IO.FS.Stream) (j : SJ) : IO Unit := do
+  let line ← h.getLine
+  if line.isEmpty then
+    for o in sjFlush j do out.putStrLn o
+    return ()
+  let (j', outs) := sjLine j (line.dropEndWhile (· == '\n')).toString
+  for o in outs do out.putStrLn o
+  loopJudgeSqlConc h out j'
+
 def main (args : List String) : IO UInt32 := do
   let stdin ← IO.getStdin
   let stdout ← IO.getStdout
@@ -263,6 +284,8 @@ def main (args : List String) : IO UInt32 := do
   | ["model", "seal"] => loopSeal stdin stdout {} true; return 0
   | ["sealgen"] => loopSeal stdin stdout {} false; return 0
   | ["judge", "seal"] => loopJudgeSeal stdin stdout "" "" []; return 0
+  | ["model", "sqlconc"] => loopSqlConc stdin stdout; return 0
+  | ["judge", "sqlconc"] => loopJudgeSqlConc stdin stdout {}; return 0
   | ["model", "cleanconc"] => loopCleanConc stdin stdout {}; return 0
   | ["judge", "cleanconc"] => loopJudgeCleanConc stdin stdout {}; return 0
   | ["model", "cloudconc"] => loopCloudConc stdin stdout {}; return 0
